@@ -4148,18 +4148,21 @@ let set_content_length h len =
 (** val set_transfer_encoding_chunked : headers -> headers **)
 
 let set_transfer_encoding_chunked h =
-  { stored =
-    (app h.stored ((tRANSFER_ENCODING,
-      (bs (String ((Ascii (true, true, false, false, false, true, true,
-        false)), (String ((Ascii (false, false, false, true, false, true,
-        true, false)), (String ((Ascii (true, false, true, false, true, true,
-        true, false)), (String ((Ascii (false, true, true, true, false, true,
-        true, false)), (String ((Ascii (true, true, false, true, false, true,
-        true, false)), (String ((Ascii (true, false, true, false, false,
-        true, true, false)), (String ((Ascii (false, false, true, false,
-        false, true, true, false)), EmptyString)))))))))))))))) :: []));
-    content_length = h.content_length; chunked = true; connection_close =
-    h.connection_close; print_date = h.print_date }
+  if h.chunked
+  then h
+  else { stored =
+         (app h.stored ((tRANSFER_ENCODING,
+           (bs (String ((Ascii (true, true, false, false, false, true, true,
+             false)), (String ((Ascii (false, false, false, true, false,
+             true, true, false)), (String ((Ascii (true, false, true, false,
+             true, true, true, false)), (String ((Ascii (false, true, true,
+             true, false, true, true, false)), (String ((Ascii (true, true,
+             false, true, false, true, true, false)), (String ((Ascii (true,
+             false, true, false, false, true, true, false)), (String ((Ascii
+             (false, false, true, false, false, true, true, false)),
+             EmptyString)))))))))))))))) :: [])); content_length =
+         h.content_length; chunked = true; connection_close =
+         h.connection_close; print_date = h.print_date }
 
 (** val set_connection_close : headers -> headers **)
 
@@ -4362,36 +4365,40 @@ let store_step fs o =
    | ORemove n0 -> without n0
    | OSetCL _ -> fs
    | OSetChunked ->
-     app fs
-       (((bs (String ((Ascii (false, false, true, false, true, true, true,
-           false)), (String ((Ascii (false, true, false, false, true, true,
-           true, false)), (String ((Ascii (true, false, false, false, false,
-           true, true, false)), (String ((Ascii (false, true, true, true,
-           false, true, true, false)), (String ((Ascii (true, true, false,
-           false, true, true, true, false)), (String ((Ascii (false, true,
-           true, false, false, true, true, false)), (String ((Ascii (true,
-           false, true, false, false, true, true, false)), (String ((Ascii
-           (false, true, false, false, true, true, true, false)), (String
-           ((Ascii (true, false, true, true, false, true, false, false)),
-           (String ((Ascii (true, false, true, false, false, true, true,
-           false)), (String ((Ascii (false, true, true, true, false, true,
-           true, false)), (String ((Ascii (true, true, false, false, false,
-           true, true, false)), (String ((Ascii (true, true, true, true,
-           false, true, true, false)), (String ((Ascii (false, false, true,
-           false, false, true, true, false)), (String ((Ascii (true, false,
-           false, true, false, true, true, false)), (String ((Ascii (false,
-           true, true, true, false, true, true, false)), (String ((Ascii
-           (true, true, true, false, false, true, true, false)),
-           EmptyString))))))))))))))))))))))))))))))))))),
-       (bs (String ((Ascii (true, true, false, false, false, true, true,
-         false)), (String ((Ascii (false, false, false, true, false, true,
-         true, false)), (String ((Ascii (true, false, true, false, true,
-         true, true, false)), (String ((Ascii (false, true, true, true,
-         false, true, true, false)), (String ((Ascii (true, true, false,
-         true, false, true, true, false)), (String ((Ascii (true, false,
-         true, false, false, true, true, false)), (String ((Ascii (false,
-         false, true, false, false, true, true, false)),
-         EmptyString)))))))))))))))) :: [])
+     if eval_chunked fs
+     then fs
+     else app fs
+            (((bs (String ((Ascii (false, false, true, false, true, true,
+                true, false)), (String ((Ascii (false, true, false, false,
+                true, true, true, false)), (String ((Ascii (true, false,
+                false, false, false, true, true, false)), (String ((Ascii
+                (false, true, true, true, false, true, true, false)), (String
+                ((Ascii (true, true, false, false, true, true, true, false)),
+                (String ((Ascii (false, true, true, false, false, true, true,
+                false)), (String ((Ascii (true, false, true, false, false,
+                true, true, false)), (String ((Ascii (false, true, false,
+                false, true, true, true, false)), (String ((Ascii (true,
+                false, true, true, false, true, false, false)), (String
+                ((Ascii (true, false, true, false, false, true, true,
+                false)), (String ((Ascii (false, true, true, true, false,
+                true, true, false)), (String ((Ascii (true, true, false,
+                false, false, true, true, false)), (String ((Ascii (true,
+                true, true, true, false, true, true, false)), (String ((Ascii
+                (false, false, true, false, false, true, true, false)),
+                (String ((Ascii (true, false, false, true, false, true, true,
+                false)), (String ((Ascii (false, true, true, true, false,
+                true, true, false)), (String ((Ascii (true, true, true,
+                false, false, true, true, false)),
+                EmptyString))))))))))))))))))))))))))))))))))),
+            (bs (String ((Ascii (true, true, false, false, false, true, true,
+              false)), (String ((Ascii (false, false, false, true, false,
+              true, true, false)), (String ((Ascii (true, false, true, false,
+              true, true, true, false)), (String ((Ascii (false, true, true,
+              true, false, true, true, false)), (String ((Ascii (true, true,
+              false, true, false, true, true, false)), (String ((Ascii (true,
+              false, true, false, false, true, true, false)), (String ((Ascii
+              (false, false, true, false, false, true, true, false)),
+              EmptyString)))))))))))))))) :: [])
    | OSetClose ->
      app fs
        (((bs (String ((Ascii (true, true, false, false, false, true, true,
@@ -6135,7 +6142,7 @@ type 's rres0 =
 (** val fixed_read : n -> fixed -> fixed rres0 **)
 
 let fixed_read k r =
-  if N.eqb r.f_remaining N0
+  if (||) (N.eqb r.f_remaining N0) (N.eqb k N0)
   then ROk ([], r)
   else let to_read = N.min r.f_remaining k in
        let (out, s') = buf_read to_read r.f_src in
@@ -7747,12 +7754,14 @@ let with_body start h date r accepted =
         | Some cl ->
           if N.leb cl (N.of_nat pROBE_MAX)
           then let (buf, _) = take_all (reader_fuel r) (N.to_nat cl) r [] in
-               WOk
-               (write_vectored_bytes
-                 (app start
-                   (app fields
-                     (app (content_length_header cl) (app cRLF0 cRLF0)))) buf
-                 accepted)
+               if N.eqb (N.of_nat (length buf)) cl
+               then WOk
+                      (write_vectored_bytes
+                        (app start
+                          (app fields
+                            (app (content_length_header cl) (app cRLF0 cRLF0))))
+                        buf accepted)
+               else WErr []
           else let head0 =
                  app start
                    (app fields
@@ -7987,6 +7996,59 @@ let decode_msg l =
         | None -> None)
      | None -> None)
   | None -> None
+
+(** val is_te : (bytes * bytes) -> bool **)
+
+let is_te f =
+  same_name (fst f)
+    (bs (String ((Ascii (false, false, true, false, true, true, true,
+      false)), (String ((Ascii (false, true, false, false, true, true, true,
+      false)), (String ((Ascii (true, false, false, false, false, true, true,
+      false)), (String ((Ascii (false, true, true, true, false, true, true,
+      false)), (String ((Ascii (true, true, false, false, true, true, true,
+      false)), (String ((Ascii (false, true, true, false, false, true, true,
+      false)), (String ((Ascii (true, false, true, false, false, true, true,
+      false)), (String ((Ascii (false, true, false, false, true, true, true,
+      false)), (String ((Ascii (true, false, true, true, false, true, false,
+      false)), (String ((Ascii (true, false, true, false, false, true, true,
+      false)), (String ((Ascii (false, true, true, true, false, true, true,
+      false)), (String ((Ascii (true, true, false, false, false, true, true,
+      false)), (String ((Ascii (true, true, true, true, false, true, true,
+      false)), (String ((Ascii (false, false, true, false, false, true, true,
+      false)), (String ((Ascii (true, false, false, true, false, true, true,
+      false)), (String ((Ascii (false, true, true, true, false, true, true,
+      false)), (String ((Ascii (true, true, true, false, false, true, true,
+      false)), EmptyString)))))))))))))))))))))))))))))))))))
+
+(** val norm_field : (bytes * bytes) -> bytes * bytes **)
+
+let norm_field f =
+  ((fst f), (strip_ows (snd f)))
+
+(** val te_fields_st : (bytes * bytes) list -> (bytes * bytes) list **)
+
+let te_fields_st st =
+  filter is_te st
+
+(** val printable_st : (bytes * bytes) list -> bool **)
+
+let printable_st st =
+  match te_fields_st st with
+  | [] -> true
+  | te :: l ->
+    (match l with
+     | [] ->
+       same_name (strip_ows (snd te))
+         (bs (String ((Ascii (true, true, false, false, false, true, true,
+           false)), (String ((Ascii (false, false, false, true, false, true,
+           true, false)), (String ((Ascii (true, false, true, false, true,
+           true, true, false)), (String ((Ascii (false, true, true, true,
+           false, true, true, false)), (String ((Ascii (true, true, false,
+           true, false, true, true, false)), (String ((Ascii (true, false,
+           true, false, false, true, true, false)), (String ((Ascii (false,
+           false, true, false, false, true, true, false)),
+           EmptyString)))))))))))))))
+     | _ :: _ -> false)
 
 type wstate =
 | WIdle
